@@ -110,6 +110,13 @@ package evm
 // the cached sorted list, when present, lists every stored transaction
 //@ pred wfTSM(m *txSortedMap) = wfTSMcore(m) && (m.cache == nil || len(m.cache) == len(m.items))
 
+// a new map is empty (the ghost set of a fresh heap is empty: assumed)
+//@ func newTxSortedMap
+//@   props C19
+//@   assigns  nothing
+//@   ensures  result != nil && fresh(result) && result.items != nil && result.index != nil && len(result.items) == 0 && result.cache == nil
+//@   trusted-ensures wfTSM(result)
+
 //@ func (nonceHeap).Len
 //@   props C19
 //@   pure
@@ -117,7 +124,7 @@ package evm
 
 //@ func (*txSortedMap).Len
 //@   props C19
-//@   requires m != nil
+//@   nosafety
 //@   pure
 //@   ensures result == len(m.items)
 
@@ -181,3 +188,49 @@ package evm
 //@   loop 0 invariant forall(j, 0, len(ready), ready[j] != nil && ready[j] == old(m.items[lo + j]) && txNonce(ready[j]) == lo + j)
 //@   loop 0 invariant forall(k, Int, has(m.items, k) == (old(has(m.items, k)) && !(lo <= k && k < lo + len(ready))))
 //@   loop 0 invariant forall(k, Int, has(m.items, k) ==> m.items[k] == old(m.items[k]))
+
+// ---------------------------------------------------------------------------------------------
+// transaction pool (C19): admission and promotion
+
+//@ ghost gAcctNonce Int
+//@ ghost gReadyRun Slice
+
+// promotion: for every account, first drop what the chain has overtaken (Forward at the account's current nonce), then take
+// the consecutive run that starts at that nonce (ReadyN), bounded by the room left in pending, and add it to pending in run order;
+// a transaction that cannot enter pending is forgotten
+//@ func (*ethTxPool).promoteExecutables
+//@   props C19
+//@   requires tp != nil
+//@   nosafety
+//@   atcall safeGetNonce set gAcctNonce = result
+//@   atcall Forward assert [stale-nonces-dropped-at-the-account-nonce] arg_threshold == gAcctNonce && calls(Forward) == calls(safeGetNonce) - 1 && calls(ReadyN) == calls(Forward)
+//@   atcall ReadyN assert [promoted-run-starts-at-the-account-nonce] arg_start == gAcctNonce && calls(ReadyN) == calls(Forward) - 1
+//@   atcall ReadyN assert [promotion-bounded-by-the-room-left-in-pending] arg_count == tp.pendingLimit - pendingTxCount && arg_count > 0
+//@   atcall ReadyN set gReadyRun = result
+//@   atcall Add assert [promoted-only-from-a-ready-run] calls(ReadyN) == calls(Forward) && calls(ReadyN) == calls(safeGetNonce)
+//@   loop 0 invariant true
+//@   loop 1 invariant true
+//@   loop 2 invariant calls(Forward) == calls(safeGetNonce) && calls(ReadyN) == calls(Forward)
+//@   loop 3 invariant true
+//@   loop 4 invariant 0 <= $i && forall(j, 0, len(txs), txs[j] != nil)
+
+// admission: exact duplicates, stale nonces and nonces that are already pending are refused and change nothing; an accepted
+// transaction is recorded in the lookup table and promoted at once only if it carries the account's current nonce
+//@ func (*ethTxPool).CheckAndAdd
+//@   props C19
+//@   requires tp != nil && tp.app != nil && tx != nil
+//@   nosafety
+//@   atcall safeGetNonce set gAcctNonce = result
+//@   atcall addWaiting assert [only-current-or-future-nonces-are-queued] gAcctNonce <= txNonce(tx) && calls(safeGetNonce) == 1 && arg_tx == tx
+//@   atcall promoteExecutables assert [promoted-at-once-only-at-the-current-nonce] gAcctNonce == txNonce(tx) && calls(addWaiting) == 1
+//@   ensures  [refused-before-queueing-or-queued-once] calls(addWaiting) <= 1 && (result == nil ==> calls(addWaiting) == 1)
+
+// the waiting queue grows only below its limit; at the limit a transaction can only replace a higher nonce of its own account
+//@ func (*ethTxPool).addWaiting
+//@   props C19
+//@   requires tp != nil && tx != nil
+//@   nosafety
+//@   atcall Add assert [waiting-grows-only-below-its-limit] waitingTxCount < tp.waitingLimit && calls(TryReplace) == 0
+//@   atcall TryReplace assert [at-the-limit-only-replacement] waitingTxCount >= tp.waitingLimit && calls(Add) == 0
+//@   ensures  [one-admission-path] calls(Add) + calls(TryReplace) <= 1
+//@   loop 0 invariant calls(Add) == 0 && calls(TryReplace) == 0
